@@ -33,6 +33,7 @@ def check(c: Check):
     clause_d(c)
     clause_e(c)
     clause_g(c)
+    clause_i(c)
     clause_h(c)
     clause_f(c)
     from .common import sweep_records
@@ -43,6 +44,46 @@ def _text_value_modules(ix: Index):
     for name in ix.all_module_names():
         if name.startswith(TEXT_VALUE_PREFIXES):
             yield name
+
+
+
+def newline_parametrised_reader(ix: Index, cls: ClassDef) -> Optional[str]:
+    """the name of the attribute when every open() of the class passes `newline=self.<attr>`, <attr> is assigned in the
+    constructor from a parameter whose default is None (= the ordinary reading of a text file), and at least one
+    open() exists; None otherwise.  All views of such a class read the file the same way."""
+    opens = []
+    for f in cls.methods.values():
+        for n in walk_own(f.node):
+            if isinstance(n, ast.Call) and isinstance(n.func, ast.Attribute) and n.func.attr == 'open':
+                opens.append((f, n))
+    if not opens:
+        return None
+    attrs = set()
+    for f, n in opens:
+        kw = [k for k in n.keywords if k.arg == 'newline']
+        if len(kw) != 1 or not (isinstance(kw[0].value, ast.Attribute) and isinstance(kw[0].value.value, ast.Name)
+                                and kw[0].value.value.id == f.self_name):
+            return None
+        attrs.add(kw[0].value.attr)
+    if len(attrs) != 1:
+        return None
+    attr = next(iter(attrs))
+    init = cls.methods.get('__init__')
+    if init is None:
+        return None
+    for n in walk_own(init.node):
+        if isinstance(n, ast.Assign) and len(n.targets) == 1 and isinstance(n.targets[0], ast.Attribute) \
+                and n.targets[0].attr == attr and isinstance(n.value, ast.Name):
+            pa = init.param(n.value.id)
+            if pa is None:
+                return None
+            a = init.node.args
+            pos = a.args
+            defaults = dict(zip([x.arg for x in pos[len(pos) - len(a.defaults):]], a.defaults))
+            d = defaults.get(n.value.id)
+            if isinstance(d, ast.Constant) and d.value is None:
+                return attr
+    return None
 
 
 # ---------------------------------------------------------------- a
@@ -196,6 +237,10 @@ def clause_a(c: Check):
         if k == 'UNKNOWN':
             raise AnalysisError('C14-a: the line iterator of %s.as_lines is not understood (%s:%d)' % (
                 cls.key, f.module.relpath, f.node.lineno))
+        if k == 'NEWLINE-ARG' and newline_parametrised_reader(ix, cls) is not None:
+            # every view of the class opens the file with the same newline expression (a constructor parameter that
+            # defaults to the ordinary reading): the views agree; who may ask for another reading is C14-i
+            k = table[cls.key] = 'NL'
         if k == 'NEWLINE-ARG':
             c.bad('C14-a', key, '%s.as_lines opens the file with an explicit newline= argument: its line ends are not '
                                 'translated like those of as_str and of every other file-backed text (CR LF / CR)' % cls.name,
@@ -394,8 +439,14 @@ def clause_c(c: Check):
 
 # ---------------------------------------------------------------- d
 def clause_d(c: Check):
+    """newline policy: a text is read the ordinary way (text mode, universal newlines) and the memory buffer keeps
+    "\\n"; a `newline=` argument appears only (1) at the in-memory buffer (`StringIO(newline='\\n')`), (2) at the one
+    open() by which the spooled buffer creates its file on disk (`newline='\\n'`: the file holds the text as it is in
+    memory), (3) inside a reader class all of whose views pass on the same constructor parameter, (4) where such a
+    reader is constructed for the spooled buffer's own file (C14-i decides that it is that file)."""
     ix = c.ix
     n = 0
+    spooled = ix.cls('exactly_lib.util.file_utils.spooled_file:SpooledTextFile')
     for name in _text_value_modules(ix):
         t = ix.text(name)
         if 'newline' not in t:
@@ -410,12 +461,32 @@ def clause_d(c: Check):
                 f = m.enclosing_func(node)
                 where = f.key if f else name
                 v = kw[0].value
+                verbatim = isinstance(v, ast.Constant) and v.value == '\n'
                 is_buffer = unparse(node.func).endswith('StringIO')
-                ok = is_buffer and isinstance(v, ast.Constant) and v.value == '\n'
+                d = ix.callee(m, f, node) if f is not None else None
+                if is_buffer:
+                    ok = verbatim
+                elif f is not None and f.cls is spooled and isinstance(node.func, ast.Attribute) and node.func.attr == 'open':
+                    ok = verbatim
+                elif f is not None and f.cls is not None and newline_parametrised_reader(ix, f.cls) is not None \
+                        and isinstance(node.func, ast.Attribute) and node.func.attr == 'open':
+                    ok = True
+                elif isinstance(d, ClassDef) and newline_parametrised_reader(ix, d) is not None:
+                    ok = verbatim and _is_spill_file_path(ix, m, f, node)
+                else:
+                    ok = False
                 c.expect(ok, 'C14-d', 'newline-argument@' + where,
                          'a text is opened with newline=%s: its line ends are translated differently from every other '
                          'access' % unparse(v), '%s:%d' % (m.relpath, node.lineno))
     c.floor('C14-d', 'newline= arguments', n, 1)
+
+
+def _is_spill_file_path(ix: Index, m, f, call: ast.Call) -> bool:
+    """the first argument of the reader's constructor is `<spooled file>.path_of_file_on_disk`"""
+    if not call.args:
+        return False
+    a = util.resolve_temp(f, call.args[0])
+    return isinstance(a, ast.Attribute) and a.attr == 'path_of_file_on_disk'
 
 
 # ---------------------------------------------------------------- e
@@ -767,3 +838,59 @@ def clause_h(c: Check):
             c.ok('C14-h', 'writes-go-to-the-current-object/%s/%s' % (mname, 'on-disk' if on_disk else 'in-memory'))
     c.floor('C14-h', 'writing methods of SpooledTextFile analysed', n_methods, 3)
     c.floor('C14-h', 'paths of the writing methods', n_paths, 8)
+
+
+# ---------------------------------------------------------------- i
+def clause_i(c: Check):
+    """a text that outgrows the memory buffer is moved to a file on disk and read from there afterwards: it is read
+    back AS WRITTEN.  Text in memory is kept verbatim (lines end at "\\n" only, CR is a character); the ordinary reading
+    of a text file turns CR and CR LF into "\\n" - so the spill file is created, and every reader of it is constructed,
+    with newline='\\n' (no translation, lines end at "\\n" only).  Otherwise a text with CR has one value below the
+    buffer size and another above it (`( M && M )` freezes its model: `num-lines` doubles)."""
+    ix, fo = c.ix, c.fo
+    spooled = ix.cls('exactly_lib.util.file_utils.spooled_file:SpooledTextFile')
+    # (1) the file on disk is created verbatim
+    n_open = 0
+    for f in spooled.methods.values():
+        for n in walk_own(f.node):
+            if isinstance(n, ast.Call) and isinstance(n.func, ast.Attribute) and n.func.attr == 'open':
+                n_open += 1
+                kw = {k.arg: k.value for k in n.keywords}
+                v = kw.get('newline')
+                ok = isinstance(v, ast.Constant) and v.value == '\n'
+                c.expect(ok, 'C14-i', 'spill-file-created-verbatim/%s' % f.key,
+                         'the spooled buffer creates its file on disk with newline=%s: what is read back from it '
+                         '(directly, or by the frozen text) has CR / CR LF turned into line breaks, unlike the same text '
+                         'while it was in memory' % (unparse(v) if v is not None else 'absent (universal newlines)'),
+                         '%s:%d' % (spooled.module.relpath, n.lineno))
+    c.floor('C14-i', 'places where the spooled buffer creates its file', n_open, 1)
+    # (2) every reader constructed over that file reads verbatim
+    n_readers = 0
+    for s_ in util.call_sites_of(ix, spooled):
+        f = s_.func
+        if f is None:
+            continue
+        for n in ast.walk(f.node):
+            if not isinstance(n, ast.Call):
+                continue
+            f2 = f.module.enclosing_func(n) or f
+            if not any(isinstance(x, ast.Attribute) and x.attr == 'path_of_file_on_disk' for a in n.args for x in ast.walk(a)):
+                continue
+            d = ix.callee(f.module, f2, n)
+            if not isinstance(d, ClassDef):
+                continue
+            reads_file = any(isinstance(x, ast.Call) and isinstance(x.func, ast.Attribute) and x.func.attr in ('open', 'read_text')
+                             for k in d.methods.values() for x in walk_own(k.node))
+            if not reads_file:
+                continue   # keeps the path only (as_file); its text comes from what was read through the buffer itself
+            n_readers += 1
+            attr = newline_parametrised_reader(ix, d)
+            b = util.ctor_call_args(ix, d, n) or {}
+            v = b.get('newline')
+            ok = attr is not None and isinstance(v, ast.Constant) and v.value == '\n'
+            c.expect(ok, 'C14-i', 'spill-file-read-verbatim/%s/%s' % (f2.key, d.name),
+                     '%s reads the file the spooled buffer wrote with %s: CR / CR LF in the text become line breaks once '
+                     'the text is larger than the memory buffer' % (
+                         d.name, 'newline=%s' % unparse(v) if v is not None else 'the ordinary newline translation'),
+                     '%s:%d' % (f.module.relpath, n.lineno))
+    c.floor('C14-i', 'readers constructed over the file of the spooled buffer', n_readers, 1)
